@@ -62,7 +62,7 @@ func newReportElementTotalCommand(cu utils.CmdUtils, reportElement reportElement
 					dbStream := streams[0]
 					return reportElement(dbStream, ReportElementConfig{
 						ElementName:    c.Args().First(),
-						Descending:     c.IsSet("desc"),
+						Descending:     c.Bool("desc"),
 						ParserConfig:   o.ParserConfig,
 						ResolverConfig: o.ResolverConfig,
 						ReporterConfig: o.ReporterConfig,
@@ -110,7 +110,7 @@ func newReportQuantityCommand(cu utils.CmdUtils, reportQuantity reportQuantityCm
 					logStream := streams[0]
 					return reportQuantity(logStream, ReportQuantityConfig{
 						DateFormat:     o.GlobalConfig.DateFormat,
-						Descending:     c.IsSet("desc"),
+						Descending:     c.Bool("desc"),
 						ParserConfig:   o.ParserConfig,
 						ReporterConfig: o.ReporterConfig,
 						FilterConfig:   o.FilterConfig,
